@@ -121,6 +121,13 @@ class PyV:
         self.v = v
 
 
+class PoisonV:
+    """a local that a loop modifies without the loop contract listing it: its value is unknown, any read is out of the subset"""
+
+    def __init__(self, name, line):
+        self.name, self.line = name, line
+
+
 class ExcClassV:
     def __init__(self, name):
         self.name = name
@@ -349,7 +356,10 @@ class Exec:
 
     def ev_Name(self, e, p):
         if e.id in p.env:
-            return p.env[e.id]
+            v = p.env[e.id]
+            if isinstance(v, PoisonV):
+                raise Unsupported(f'local {e.id} is modified by the loop at line {v.line} whose contract does not list it@{e.lineno}')
+            return v
         if e.id in self.consts:
             return self.consts[e.id]
         if e.id in ('ValueError', 'TypeError', 'KeyError', 'AssertionError', 'RuntimeError', '_NeedsReordering',
@@ -2021,6 +2031,41 @@ class Exec:
                 'list': isinstance(v, ListV), 'set': isinstance(v, SetV)}.get(t, False)
 
     # ---- loops --------------------------------------------------------------------------------------------
+    @staticmethod
+    def loop_writes(st):
+        """names of locals that the body of a loop assigns or mutates in place (targets of the loop itself excluded)"""
+        own = {n.id for n in ast.walk(st.target) if isinstance(n, ast.Name)} if isinstance(st, ast.For) else set()
+        out = set()
+        for n in ast.walk(ast.Module(body=st.body, type_ignores=[])):
+            if isinstance(n, ast.Name) and isinstance(n.ctx, ast.Store):
+                out.add(n.id)
+            elif isinstance(n, (ast.Subscript, ast.Attribute)) and isinstance(n.ctx, ast.Store) and isinstance(n.value, ast.Name):
+                out.add(n.value.id)
+            elif (isinstance(n, ast.Call) and isinstance(n.func, ast.Attribute) and isinstance(n.func.value, ast.Name)
+                  and n.func.attr in ('add', 'pop', 'remove', 'append', 'update', 'setdefault', 'clear', 'discard', 'extend',
+                                      'difference_update', 'intersection_update')):
+                out.add(n.func.value.id)
+        return out - own
+
+    def havoc_loop_locals(self, st, spec, ph_):
+        """state at the start of an arbitrary iteration: listed locals get arbitrary values of their kind; locals that the body
+        writes but the loop contract does not list are poisoned (reading them before they are assigned again is out of the subset)"""
+        listed = set(spec.get('modifies', [])) | set(spec.get('modifies_sets', [])) | set(spec.get('modifies_dicts', []))
+        for v in spec.get('modifies', []):
+            ph_.env[v] = IntV(fresh(v))
+        for v in spec.get('modifies_sets', []):
+            ph_.env[v] = SetV(fresh(v + '_has', ArraySort(I, B)))
+            self.refresh_ne(ph_.env[v], ph_)
+        for v in spec.get('modifies_dicts', []):
+            old = ph_.env.get(v)
+            if isinstance(old, DictV):
+                nd = DictV(fresh(v + '_has', old.has.sort()), fresh(v + '_val', old.val.sort()), old.vkind, old.kkind)
+                ph_.pc.append(self.ne_axiom(nd))
+                ph_.env[v] = nd
+        for v in self.loop_writes(st) - listed:
+            if v in ph_.env and not isinstance(ph_.env[v], (MgrV, ObjV)):
+                ph_.env[v] = PoisonV(v, st.lineno)
+
     def loop_spec(self, st):
         if not hasattr(self, '_loop_ids'):
             self._loop_ids = {}
@@ -2042,11 +2087,7 @@ class Exec:
             self.oblige(p, f'loop{k}-inv-init:{nm}@{st.lineno}', g, st.lineno)
         entry_env = dict(p.env)
         ph_ = p.fork()
-        for v in spec.get('modifies', []):
-            ph_.env[v] = IntV(fresh(v))
-        for v in spec.get('modifies_sets', []):
-            ph_.env[v] = SetV(fresh(v + '_has', ArraySort(I, B)))
-            self.refresh_ne(ph_.env[v], ph_)
+        self.havoc_loop_locals(st, spec, ph_)
         for key, fields in spec.get('modifies_mgr', []):
             ph_.mgrs[key] = State(base=ph_.mgrs[key], modifies=fields)
         ctxh = Ctx(mgrs=ph_.mgrs, env0=entry_env, env=ph_.env, uses=self.c.uses, ex=self, path=ph_, entry=self.entry_mgrs)
@@ -2139,11 +2180,7 @@ class Exec:
         # arbitrary iteration from a havocked state satisfying the invariant
         iv = fresh('idx')
         ph_ = p.fork()
-        for v in spec.get('modifies', []):
-            ph_.env[v] = IntV(fresh(v))
-        for v in spec.get('modifies_sets', []):
-            ph_.env[v] = SetV(fresh(v + '_has', ArraySort(I, B)))
-            self.refresh_ne(ph_.env[v], ph_)
+        self.havoc_loop_locals(st, spec, ph_)
         for mk in spec.get('modifies_mgr', []):
             key, fields = mk
             ph_.mgrs[key] = State(base=ph_.mgrs[key], modifies=fields)
